@@ -460,9 +460,11 @@ VEL_TYPE = ("distancevel", "velocity")
 
 def check_property(opm, System, kind, case, extra):
     """-> None | (signature, what). `kind` names the symmetry, `extra` its parameters."""
-    from props import c20_ext
+    from props import c20_ext, c20_lib
     if kind in c20_ext.KINDS:
         return c20_ext.KINDS[kind](opm, System, case)
+    if kind in c20_lib.KINDS:
+        return c20_lib.KINDS[kind](opm, System, case, extra)
     name = case["op"][0]
     if kind == "translation":
         r = pred_pair(opm, System, case, translated(case, extra["t"]))
@@ -1175,7 +1177,8 @@ def run(ctx):
         ev("translation", c, {"t": rnd_vec(rng, 20)})
         # image shifts: periodic, tie-free (any dyadic box), any subset of atoms, also 9-boxes for the slicing classes
         nm = rng.choice(rel)
-        c = tie_free_case(rng, name=nm, periodic=True, boxform=rng.choice(["3", "9"]) if nm != "distancevel" else "3")
+        c = tie_free_case(rng, name=nm, periodic=True,
+                          boxform=rng.choice(["3", "9"]) if (nm != "distancevel" or ctx.extra.get("variant") == "repaired") else "3")
         ks = [[rng.randint(-3, 3) if rng.random() < 0.6 else 0 for _ in range(3)] for _ in c["pos"]]
         ev("image-shift", c, {"ks": ks})
         # velocity reversal: all six
@@ -1298,6 +1301,10 @@ def run(ctx):
     #      Path.reverse as whole operations against Model/GeomCtor.lean and Model/GeomFlow.lean
     from props import c20_ext
     c20_ext.run(ctx, opm, System)
+    # ---- follow-up pass: frames the library really makes (snapshot_to_system / load_path / a real TurtleMD propagate),
+    #      2-D boxes, changed-fields vs Geom.effects, base-class keys, producer agreement of the engines' boxes
+    from props import c20_lib
+    c20_lib.run(ctx, opm, System)
     new_assumptions = [
         "system.pos/vel are float (N,3) arrays, system.box is None or a 1-D float array (the default 3x3 zero box of a bare System() is not modelled)",
         "sqrt/arctan2/rad2deg/sin/cos and the final quotients are applied outside the Lean model (same formulas in floating point, compared at rel 1e-9; angles through sin/cos)",
